@@ -6,6 +6,7 @@ CONSTANTS
   PreStates = {"absent", "free", "R1", "Q"}
   MaxRej = 1
   FreeRefs = FALSE
+  Grabs = TRUE
   MaxEdits = 2
   MaxFaults = 1
   MaxRecs = 3
